@@ -88,6 +88,7 @@ def run(ctx):
     shared.queue_discipline(ctx, '4')
     shared.more_work_signal(ctx, '7')
     shared.sync_before_handover(ctx, '6')
+    shared.unsynced_log_never_abandoned(ctx, '6')       # F82: a log that could not be synced is not left behind for a newer one
     shared.replay_order(ctx, '5')
     shared.deferral_keeps_commit_order(ctx, '8')
     # ... and what does wait - the removal of a tree whose reader is locked - keeps its place in the order in which commits reach the
